@@ -40,8 +40,22 @@ def _meta_record(m: dict):
     d = meta.to_dict()
     back = Meta.from_dict(d)
     d2 = back.to_dict()
+    # clause (iii): a directory listing written WITH metadata parses back, given its hash name, to the same entry
+    from dvc_data.hashfile.hash_info import HashInfo
+    from dvc_data.hashfile.tree import Tree
+
+    hname = ("md5", "md5-dos2unix")[len(d) % 2]
+    key, hval = ("sub dir", "b é.dir"), "d41d8cd98f00b204e9800998ecf8427e"
+    tree = Tree()
+    tree.add(key, meta, HashInfo(hname, hval))
+    lst = json.loads(json.dumps(tree.as_list(with_meta=True)))
+    parsed = list(Tree.from_list(lst, hash_name=hname))
+    (k2, m2, h2), = parsed
+    lst_ok = k2 == key and h2 is not None and h2.name == hname and h2.value == hval
     return {"m": m, "d": [[k, _s(v)] for k, v in d.items()], "back": {f: _s(getattr(back, f)) for f in FIELDS},
-            "d2": [[k, _s(v)] for k, v in d2.items()]}
+            "d2": [[k, _s(v)] for k, v in d2.items()],
+            "lst": {f: _s(getattr(m2, f)) for f in FIELDS} if m2 is not None else {f: "None" if f not in BOOLF else "False" for f in FIELDS},
+            "lst_ok": bool(lst_ok)}
 
 
 def _hash_record(name, value):
